@@ -107,28 +107,36 @@ fn main() {
     let thorough = cx.tier.is_thorough();
 
     cx.set_rule(
-        "complete enumeration of (entry point x length x pattern x rayon pool size). MSM: lengths ALL of 0..=70 \
-         then {127,128,129,255,256,257,1000,4095,4096} (quick: +8104 with 4 patterns {random, identity-middle, opposite-pairs, equal-bases}, and 1000 / 4095 with 7 patterns; \
-         thorough adds {8103,8104,8200,22027} with all patterns) x 16 scalar/base patterns x pools {1,2,3,5,8,16} \
-         (quick: pools {1,2,3,16} for lengths >= 1000, and under pools 5, 8, 16 only the 6 patterns {random, max-scalars, \
-         identity-middle, opposite-same-scalar, opposite-pairs, repeated-zero-sum}; entries with no rayon call on their \
-         path - msm_serial and the blst-backed ones - run under pools {1,16} only, pool 1 only in quick; thin wrappers \
-         around msm_best - msm_specific and MSMKZG::eval on BN254/G2 - run under pools {1,3} in quick, {1,16} at 8104, all pools in thorough) on BLS12-381 G1, \
-         BN254 G1 and BLS12-381 G2 (quick: G2 lengths 0..=36 and {127,128,129,257} under pools {1,3,16}); \
-         reference (Σ sᵢbᵢ)·G with known seeded dlogs bᵢ for every length and, for lengths <= 70, ALSO the direct \
-         naive sum Σ sᵢ·Pᵢ. FFT: k = 0..=10 (thorough 12) x pools x {δ0, δlast, ones, seeded} vs the O(n²) DFT \
-         with the same ω, over the scalar field and over G1 (quick: the G1 transforms of size 2^9 and 2^10 under pools {1,16} only) (group inputs cᵢ·G, expected (DFT c)ⱼ·G; direct \
-         group DFT for n <= 16), inverse round trip, recursive_butterfly_arithmetic. EvaluationDomain::new(j,k) \
-         j 1..=9 x k 1..=8 (thorough 10) x pools: all conversions vs Horner at ω^i / ζ·ω_ext^i, rotations -3..=3, \
-         l_i_range on ranges with negative and >= n indices vs the product formula, division by X^n-1, polynomial \
-         operators. kate_division / lagrange_interpolate / eval_polynomial (all lengths 0..=70 x pools) / \
-         compute_inner_product / g_to_lagrange / Rational alphabet² / commit vs commit_lagrange. A case is one \
-         (curve or object, size, pool); an elementary evaluation is non-trivial when size >= 2 and the scalars \
-         are not all zero. Case keys are unique.",
+        "complete enumeration of (entry point x length x pattern x rayon pool size). \
+         MSM (BLS12-381 G1, BN254 G1, BLS12-381 G2; entries msm_serial / msm_parallel / msm_best / msm_specific / \
+         MSMKZG::eval / G1Projective::multi_exp / G2Projective::multi_exp): lengths ALL of 0..=70 then \
+         {127,128,129,255,256,257,1000,4095,4096}, thorough adds {8103,8104,8200,22027}; x 16 scalar/base patterns \
+         (random, zero scalars, one non-zero first/last, r-1, top bit set, small, all ones, identity base \
+         first/middle/last/all, equal bases, P/-P same scalar, P/-P pairs, repeated base with scalars summing to 0) \
+         x pools {1,2,3,5,8,16}. Entries with no rayon call on their path (msm_serial, blst-backed ones) run under \
+         pools {1,16} only. QUICK-TIER SUBSAMPLING (thorough runs the full product): 8104 is added on BLS12-381 G1 \
+         with 4 patterns {random, identity-middle, opposite-pairs, equal-bases}; 1000 and 4095 use 7 patterns; lengths \
+         >= 1000 use pools {1,2,3,16} (BN254: {1,3,16}, and no 8104); under pools 5, 8, 16 only the 6 patterns {random, \
+         max-scalars, identity-middle, opposite-same-scalar, opposite-pairs, repeated-zero-sum}; rayon-free entries \
+         under pool 1 only; thin wrappers around msm_best (msm_specific, MSMKZG::eval on BN254 / G2) under pools \
+         {1,3}; G2 lengths 0..=36 and {127,128,129,257} under pools {1,3,16}. Reference: (Σ sᵢbᵢ)·G with known \
+         seeded dlogs bᵢ (bases Pᵢ = bᵢ·G) for every length and, for lengths <= 70, ALSO the direct naive sum Σ sᵢ·Pᵢ. \
+         FFT: k = 0..=10 (thorough 12) x pools x {δ0, δlast, ones, seeded} vs the O(n²) DFT with the same ω, over the \
+         scalar field and over G1 (group inputs cᵢ·G, expected (DFT c)ⱼ·G; direct group DFT for n <= 16; quick: G1 \
+         transforms of size 2^9, 2^10 under pools {1,16} only, BN254 G1 up to 2^6), inverse round trip with 1/n, \
+         recursive_butterfly_arithmetic called directly. EvaluationDomain::new(j,k), j 1..=9 x k 1..=8 (thorough 10) \
+         x pools: all conversions vs Horner at ω^i / ζ·ω_ext^i, rotations -3..=3 (and far outside for rotate_omega), \
+         l_i_range on ranges with negative and >= n indices vs the product formula, division by X^n-1, Polynomial \
+         operators. kate_division (lengths 1..=70, 128, 257, 1024), lagrange_interpolate (0..=6 points), \
+         eval_polynomial (all lengths 0..=70 and {127,128,129,1000,4096} x pools {1,2,3,5,8,16,32}), \
+         compute_inner_product, g_to_lagrange (k 0..=8/10 x pools), Rational (17-element alphabet squared, all \
+         operators), KZG unsafe_setup / commit / commit_lagrange / from_parts / downsize (k 0..=6/8 x pools, and a \
+         length sweep on parameters with known dlogs). A case is one (object, size, pool[, entry]); an elementary \
+         evaluation is non-trivial when size >= 2 and the scalars are not all zero. Case keys are unique.",
     );
     cx.assume("interleavings within one pool size cannot change results because rayon tasks own disjoint &mut chunks (borrow checker); the schedule dimension is therefore pool size × length");
     cx.assume("projective scalar multiplication and addition (used as the naive definition Σ sᵢ·Pᵢ and to build bases Pᵢ = bᵢ·G) are correct: they are the subject of a different check; here the direct naive sum and the known-dlog reference are cross-checked against each other for every length <= 70");
-    cx.assume("blst's Pippenger (G1Projective/G2Projective::multi_exp, msm_specific on BLS12-381 G1, MSMKZG<Bls12>) uses blst's own global thread pool sized by the CPU count; it cannot be resized through the API, so the rayon pool dimension is vacuous for those entries (they are still run under pools 1 and 16)");
+    cx.assume("blst's Pippenger (G1Projective/G2Projective::multi_exp, msm_specific on BLS12-381 G1, MSMKZG<Bls12>) uses blst's own global thread pool sized by the CPU count; it cannot be resized through the API, so the rayon pool dimension is vacuous for those entries (they are run under pool 1, and pool 16 too in the thorough tier)");
     cx.assume("msm_serial's accumulator argument is the identity on entry (it doubles the accumulator before adding, so any other start value is outside what its callers use)");
     cx.assume("seeded representatives come from VERIF_SEED; the enumeration over lengths, patterns, pools and sizes is complete");
 
@@ -167,7 +175,13 @@ fn main() {
         patterns_under_pool: Box::new(move |n, t| if !thorough && t >= 5 && n > 0 { Some(REDUCED_PATTERNS.to_vec()) } else { None }),
     };
     msm::run_curve::<G1Affine>(&mut cx, &plan_g1("bls12-381-g1"), &bls_g1_entries());
-    msm::run_curve::<bn256::G1Affine>(&mut cx, &plan_g1("bn254-g1"), &bn_g1_entries());
+    // BN254 (development curve, same generic code): in quick no 8104 and pools {1,3,16} from 1000 on
+    let mut plan_bn = plan_g1("bn254-g1");
+    if !thorough {
+        plan_bn.lengths.retain(|n| *n != 8104);
+        plan_bn.pools_for = Box::new(|n| if n >= 1000 { vec![1, 3, 16] } else { POOLS_ALL.to_vec() });
+    }
+    msm::run_curve::<bn256::G1Affine>(&mut cx, &plan_bn, &bn_g1_entries());
     // G2 (generic msm over an extension-field curve + blst's G2 Pippenger): shorter list in quick
     let mut g2_lens: Vec<usize> = (0..=if thorough { 70 } else { 36 }).collect();
     g2_lens.extend(if thorough { big_lens.clone() } else { vec![127, 128, 129, 257] });
